@@ -523,6 +523,24 @@ fn judge(case: &ServerCase, w: &World, which: Which, labels: &mut Labels, nontri
 }
 
 fn check_server(case: &ServerCase, which: Which) -> Outcome {
+    if which == Which::C16 && case.key_seed % 8 == 0 {
+        // (b) end to end through the daemon's server task over loopback UDP
+        match udp_exchange(case) {
+            Err(f) => return Outcome { failure: Some(f), labels: vec!["e2e-udp"], nontrivial: true },
+            Ok((sent, answered)) => {
+                let mut o = check_server_lib(case, which);
+                o = o.label(if sent == 0 { "e2e-udp-unavailable-or-empty" } else { "e2e-udp" });
+                if answered > 0 {
+                    o = o.label("e2e-udp-answered");
+                }
+                return o;
+            }
+        }
+    }
+    check_server_lib(case, which)
+}
+
+fn check_server_lib(case: &ServerCase, which: Which) -> Outcome {
     let with_large = matches!(which, Which::C17);
     let w = run_case(case, with_large);
     let mut labels = Labels::default();
@@ -608,7 +626,7 @@ pub fn server_case_from_bytes(data: &[u8]) -> Option<ServerCase> {
 server_prop!(C15, "C15", Which::C15, 60_000, 3_000_000, 4,
     "server configuration (deny/allow lists over a pool of nested/overlapping v4/v6/mapped subnets, both actions, require-nts, accepted-version mask) × client address (boundary addresses of the pool, mapped forms, random) × request (reference-built plain/NTS v3/v4/v5 polls, non-client modes, malformed, mutated, raw bytes); oracle = decision table of the statement with reference subnet arithmetic and reference decoding of the answer; non-trivial = the address is on exactly one of the lists or a deny list is configured");
 server_prop!(C16, "C16", Which::C16, 60_000, 3_000_000, 3,
-    "all request kinds of the server world, answered with the daemon's request-sized buffer and, on a twin server, with a 4 KiB buffer; oracle = answer length ≤ request length in both; non-trivial = request longer than the bare 48-byte header that the large-buffer twin answered");
+    "all request kinds of the server world: (a) Server::handle with the daemon's request-sized buffer; (b) one case in eight additionally end to end: the same datagrams are sent over loopback UDP to the daemon's real ServerTask (timestamped socket, default allow-all policy, NTPv3-5 accepted) and every reply is matched to its request by the echoed identifier; oracle = reply length ≤ request length; non-trivial = an answered request longer than the bare 48-byte header");
 server_prop!(C17, "C17", Which::C17, 60_000, 3_000_000, 3,
     "differential: same datagram handled with a request-sized buffer and with a 4 KiB buffer on twin servers; oracle = large answers ⇒ small answers with the same kind, no InternalError statistics entry; non-trivial = answered request with ≥1 extension field");
 server_prop!(C18, "C18", Which::C18, 60_000, 3_000_000, 3,
@@ -619,3 +637,136 @@ server_prop!(C21, "C21", Which::C21, 60_000, 3_000_000, 4,
     "all request kinds and configurations; oracle = exactly one statistics entry per datagram whose kind equals the observed action (reference-decoded answer), NTS flag false for parseable requests without authenticator and true for answered NTS requests, then the daemon's ServerStats counters fed with the entries equal the tally of observed actions; non-trivial = every handled datagram");
 server_prop!(C22, "C22", Which::C22, 100_000, 5_000_000, 4,
     "raw byte strings 0..1024, reference-built NTS layouts with valid cookies and arbitrary trailing data, bit-flipped/truncated/extended valid requests, random configurations, synchronisation states (variance terms 0/huge/slightly negative) and key histories; oracle = Server::handle returns (no panic); non-trivial = every handled datagram");
+
+// ---------------------------------------------------------------------------
+// C16 (b): end to end through the daemon's ServerTask on a loopback UDP socket
+
+/// identifier a reply echoes: v3/v4 transmit timestamp -> origin field, v5 client cookie
+fn request_ident(req: &[u8]) -> Option<[u8; 8]> {
+    if req.len() < 48 {
+        return None;
+    }
+    let v = (req[0] >> 3) & 7;
+    let r = if v == 5 { &req[24..32] } else { &req[40..48] };
+    Some(r.try_into().unwrap())
+}
+
+/// Sends the case's datagrams to a real `ServerTask` bound to a loopback port and checks every
+/// reply against the request it echoes. Returns (sent, answered).
+pub fn udp_exchange(case: &ServerCase) -> Result<(usize, usize), Failure> {
+    use ntp_proto::{FilterAction, FilterList, KeySetProvider, Server};
+    use ntpd::verif_hook::{DaemonServerConfig, ServerStats, ServerTask};
+    use std::sync::{Arc, RwLock};
+    use std::time::Duration;
+    let port = 20000 + (std::process::id() % 20000) as u16;
+    let listen: std::net::SocketAddr = ([127, 0, 0, 1], port).into();
+    crate::rt::run_real(async move {
+        let dcfg = DaemonServerConfig {
+            listen,
+            denylist: FilterList { filter: vec![], action: FilterAction::Ignore },
+            allowlist: FilterList { filter: vec!["0.0.0.0/0".parse().unwrap(), "::/0".parse().unwrap()], action: FilterAction::Ignore },
+            rate_limiting_cache_size: 0,
+            rate_limiting_cutoff: Duration::ZERO,
+            require_nts: None,
+            accept_ntp_versions: versions(7),
+        };
+        let provider = KeySetProvider::dangerous_new_deterministic(case.history as usize);
+        let keysets = vec![provider.get()];
+        let foreign = KeySetProvider::new(0).get();
+        let (_tx, rx) = tokio::sync::watch::channel(provider.get());
+        let info = Arc::new(RwLock::new(make_info(&case.state, case.key_seed)));
+        let now = Arc::new(std::sync::atomic::AtomicU64::new(0x1234_5678_0000_0000));
+        let server = Server::new_internal(dcfg.clone().into(), FixedClock(now), info, provider.get());
+        let handle = ServerTask::spawn(server, dcfg, ServerStats::default(), rx, Duration::from_millis(5));
+        let res = async {
+            let sock = tokio::net::UdpSocket::bind("127.0.0.1:0").await.map_err(|e| Failure { signature: "harness/udp-bind".into(), what: e.to_string() })?;
+            let _ = sock.connect(listen).await;
+            // wait until the server answers a plain poll
+            let mut probe = [0u8; 48];
+            probe[0] = 0x23;
+            probe[40..48].copy_from_slice(&0x5052_4f42_4550_5245u64.to_be_bytes());
+            let mut buf = [0u8; 2048];
+            let mut up = false;
+            for _ in 0..200 {
+                let _ = sock.send(&probe).await;
+                if let Ok(Ok(n)) = tokio::time::timeout(Duration::from_millis(5), sock.recv(&mut buf)).await {
+                    if n >= 48 && buf[24..32] == probe[40..48] {
+                        up = true;
+                        break;
+                    }
+                }
+            }
+            if !up {
+                // sockets not available in this environment: the library-level clause still stands
+                return Ok((0usize, 0usize));
+            }
+            let jar = CookieJar { keysets: &keysets, foreign: &foreign };
+            let mut sent: Vec<([u8; 8], usize)> = Vec::new();
+            let mut answered = 0usize;
+            let judge = |reply: &[u8], sent: &[([u8; 8], usize)]| -> Result<bool, Failure> {
+                if reply.len() < 48 {
+                    return Err(Failure { signature: "e2e-reply-shorter-than-a-header".into(), what: format!("{} bytes", reply.len()) });
+                }
+                let id: [u8; 8] = reply[24..32].try_into().unwrap();
+                if id == 0x5052_4f42_4550_5245u64.to_be_bytes() {
+                    return Ok(false); // late probe answer
+                }
+                let longest = sent.iter().filter(|s| s.0 == id).map(|s| s.1).max();
+                match longest {
+                    None => Ok(false),
+                    Some(l) if reply.len() > l => Err(Failure {
+                        signature: "e2e-reply-longer-than-request".into(),
+                        what: format!("the daemon sent a {} byte reply to a {} byte request over UDP", reply.len(), l),
+                    }),
+                    Some(_) => Ok(true),
+                }
+            };
+            for (i, item) in case.reqs.iter().enumerate() {
+                let b = build_request(&item.req, &jar, case.key_seed.wrapping_add(i as u64 * 7919)).bytes;
+                if b.is_empty() || b.len() > 1024 {
+                    continue;
+                }
+                let Some(id) = request_ident(&b) else {
+                    let _ = sock.send(&b).await;
+                    continue;
+                };
+                sent.push((id, b.len()));
+                let _ = sock.send(&b).await;
+                if let Ok(Ok(n)) = tokio::time::timeout(Duration::from_millis(12), sock.recv(&mut buf)).await {
+                    if judge(&buf[..n], &sent)? {
+                        answered += 1;
+                    }
+                }
+            }
+            // two fixed datagrams whose full-size answer would outgrow them (the known C17 classes):
+            // a correct daemon drops them, a daemon that hands out a larger buffer answers too long
+            let mut grow_v4 = vec![0u8; 48];
+            grow_v4[0] = 0x23;
+            grow_v4[40..48].copy_from_slice(&0x4752_4f57_5f56_3434u64.to_be_bytes());
+            for _ in 0..2 {
+                grow_v4.extend_from_slice(&[0x01, 0x04, 0x00, 0x08, 0xAA, 0xBB, 0xCC, 0xDD]);
+            }
+            grow_v4.extend_from_slice(&[0u8; 20]);
+            for b in [grow_v4] {
+                sent.push((request_ident(&b).unwrap(), b.len()));
+                let _ = sock.send(&b).await;
+                if let Ok(Ok(n)) = tokio::time::timeout(Duration::from_millis(12), sock.recv(&mut buf)).await {
+                    if judge(&buf[..n], &sent)? {
+                        answered += 1;
+                    }
+                }
+            }
+            // drain late replies
+            while let Ok(Ok(n)) = tokio::time::timeout(Duration::from_millis(3), sock.recv(&mut buf)).await {
+                if judge(&buf[..n], &sent)? {
+                    answered += 1;
+                }
+            }
+            Ok((sent.len(), answered))
+        }
+        .await;
+        handle.abort();
+        let _ = handle.await;
+        res
+    })
+}
